@@ -542,11 +542,86 @@ class Ctx:
                 e = ir.norm(e2, self.nctx)
         if ir.contains(e, lambda x: x[0] == 'last'):
             e = ir.norm(ir.subst(e, self._last), self.nctx)
+        if ir.contains(e, lambda x: x[0] == 'attr' and x[1][0] == 'call' and x[1][1][0] in ('name', 'attr')):
+            e2 = ir.subst(e, self._ctor_field)
+            if e2 != e:
+                e = ir.norm(e2, self.nctx)
         if ir.contains(e, lambda x: x[0] == 'call' and x[1][0] == 'attr' and x[1][2] == 'replicate'):
             e2 = ir.subst(e, self._mask_to_mux)
             if e2 != e:
                 e = ir.norm(e2, self.nctx)
         return e
+
+    def _ctor_field(self, x):
+        """`Cls(a=A, b=B).a` is A when Cls.__init__ stores its parameter unconditionally and `a` is the plain read-only
+        property of that field (and the value stored is a function of the parameters only): a parameter read back from the
+        object just constructed.  (The constructor may refuse its arguments; then nothing downstream is evaluated.)"""
+        if not (x[0] == 'attr' and x[1][0] == 'call' and x[1][1][0] in ('name', 'attr')):
+            return None
+        call, nm = x[1], x[2]
+        last = call[1][2] if call[1][0] == 'attr' else call[1][1]
+        if not last[:1].isupper():
+            return None
+        try:
+            cls = self.idx.resolve_class(call[1], self.fi.module, self.fi.cls)
+        except Exception:
+            return None
+        if cls is None:
+            return None
+        init = cls.method("__init__")
+        getter = None
+        for k in [cls] + self.idx.bases_of(cls):
+            g = k.method(nm)
+            if g is not None:
+                getter = g
+                break
+        if init is None or getter is None:
+            return None
+        body = [s for s in getter.node.body if not (isinstance(s, ast.Expr) and isinstance(s.value, ast.Constant))]
+        is_prop = any(isinstance(dc, ast.Name) and dc.id == "property" for dc in getter.node.decorator_list)
+        if not (is_prop and len(body) == 1 and isinstance(body[0], ast.Return) and isinstance(body[0].value, ast.Attribute) and
+                isinstance(body[0].value.value, ast.Name) and body[0].value.value.id == "self"):
+            return None
+        field = body[0].value.attr
+        if len(cls.methods.get(nm, ())) > 1:
+            return None                                     # has a setter: the field may have been changed since
+        try:
+            ct = get_ctor(self.idx, cls)
+        except Exception:
+            return None
+        st = ct.stores.get(f"self.{field}")
+        if st is None or st[1]:
+            return None
+        a = init.node.args
+        if a.vararg or a.kwarg:
+            return None
+        pos = [p.arg for p in a.posonlyargs + a.args][1:]
+        defaults = dict(zip(reversed(pos), reversed(a.defaults)))
+        for p, dflt in zip(a.kwonlyargs, a.kw_defaults):
+            if dflt is not None:
+                defaults[p.arg] = dflt
+        names = pos + [p.arg for p in a.kwonlyargs]
+        if any(v[0] in ('star', 'dstar') for v in call[2]) or any(k in (None, '**') for k, v in call[3]) or len(call[2]) > len(pos):
+            return None
+        bound = dict(zip(pos, call[2]))
+        for k, v in call[3]:
+            if k not in names or k in bound:
+                return None
+            bound[k] = v
+        for n in names:
+            if n not in bound:
+                if n not in defaults or not isinstance(defaults[n], ast.Constant):
+                    if n in defaults and ast.unparse(defaults[n]) == "frozenset()":
+                        bound[n] = ir.from_ast(defaults[n], {})
+                        continue
+                    return None
+                bound[n] = ('const', defaults[n].value)
+        val = st[0]
+        free = {y[1] for y in ir.walk(val) if y[0] == 'name'}
+        builtins_ok = {"isinstance", "int", "max", "min", "len", "tuple", "frozenset", "exact_log2", "ceil_log2", "None"}
+        if not free - builtins_ok <= set(names):
+            return None
+        return ir.subst(val, lambda y: bound.get(y[1]) if y[0] == 'name' and y[1] in bound else None)
 
     def width_of(self, e):
         """Width of a value where it can be read off: a slice with unit step, a declared member of this component, a local
@@ -1073,12 +1148,42 @@ def show_roles(c, e, env):
 
 
 # ---- symbolic refusal conditions --------------------------------------------------------------------------
+def _passed_type_guards(c):
+    """{line of a raise statement: [isinstance(x, T) IR, ...]} for the guard clauses `if not isinstance(x, T): raise ...` (no else)
+    that precede it in its own block or an enclosing one: on the way to that raise the test was false."""
+    out = {}
+
+    def walk(stmts, known):
+        known = list(known)
+        for s in stmts:
+            if isinstance(s, ast.Raise):
+                out[s.lineno] = list(known)
+            for field in ("body", "orelse", "finalbody"):
+                blk = getattr(s, field, None)
+                if isinstance(blk, list) and blk and isinstance(blk[0], ast.stmt) and not isinstance(s, (ast.FunctionDef, ast.AsyncFunctionDef, ast.ClassDef)):
+                    walk(blk, known)
+            if isinstance(s, ast.If) and not s.orelse and s.body and isinstance(s.body[-1], ast.Raise):
+                t = s.test
+                if isinstance(t, ast.UnaryOp) and isinstance(t.op, ast.Not) and isinstance(t.operand, ast.Call) and \
+                        isinstance(t.operand.func, ast.Name) and t.operand.func.id == "isinstance" and len(t.operand.args) == 2 and \
+                        isinstance(t.operand.args[0], ast.Name) and isinstance(t.operand.args[1], ast.Name) and t.operand.args[1].id == "int":
+                    # only while the name is not rebound afterwards
+                    nm = t.operand.args[0].id
+                    if not any(isinstance(n, ast.Name) and n.id == nm and isinstance(n.ctx, ast.Store) for n in ast.walk(c.fi.node)):
+                        known.append(c.norm(ir.from_ast(t.operand, {})))
+    walk(c.fi.node.body, [])
+    return out
+
+
 def raise_sites(c, depth=1):
     """[(path-condition IRs [(cond, polarity)], exc, loop ids, lineno, via)] for every `raise` of the walked function and
     of same-class helpers it calls as plain statements (one level), with the helper's parameters substituted."""
     out = []
+    passed = _passed_type_guards(c)
     for exc, gen, ln in c.t.raises:
         conds = [(c.norm(fr[1]), fr[2]) for fr in gen if fr[0] == 'pyif']
+        # type knowledge from earlier guard clauses of the same block chain: past `if not isinstance(x, int): raise`, x is an int
+        conds = [(t_, True) for t_ in passed.get(ln, ())] + conds
         loops = [fr[1] for fr in gen if fr[0] == 'for']
         out.append((conds, exc, loops, ln, None))
     if depth > 0 and c.fi.cls is not None:
@@ -1122,6 +1227,16 @@ def int_canon(e, ints=frozenset()):
         return ('and', tuple(int_canon(x, here) for x in e[1]))
     if e[0] == 'un' and e[1] == 'not':
         return ('un', 'not', int_canon(e[2], ints))
+    if e[0] == 'phi':
+        # a choice between conditions (an if/elif chain that selects which refusal applies): the else branch is only
+        # reached when the test was false, so a `not isinstance(x, int) or ...` test makes x an integer there
+        test = int_canon(e[1], ints)
+        past = ints
+        if e[1][0] == 'or':
+            past = ints | frozenset(_is_int_test(x[2]) for x in e[1][1] if x[0] == 'un' and x[1] == 'not' and _is_int_test(x[2]) is not None)
+        elif e[1][0] == 'un' and e[1][1] == 'not' and _is_int_test(e[1][2]) is not None:
+            past = ints | {_is_int_test(e[1][2])}
+        return ('phi', test, int_canon(e[2], ints), int_canon(e[3], past))
     if e[0] == 'cmp' and e[1] == '<' and e[2] in ints and e[3][0] == 'const' and isinstance(e[3][1], int) and not isinstance(e[3][1], bool):
         return ('un', 'not', ('cmp', '<', ('const', e[3][1] - 1), e[2]))
     return e
@@ -1134,8 +1249,10 @@ def _formula(c, conds):
         x = _is_int_test(cd)
         if x is not None and pol:
             ints.add(x)
+        if cd[0] == 'un' and cd[1] == 'not' and _is_int_test(cd[2]) is not None and not pol:
+            ints.add(_is_int_test(cd[2]))               # we are past `if not isinstance(x, int): raise`
     for cd, pol in conds:
-        f = c.eng.cond(c.norm(int_canon(cd, frozenset(ints))))
+        f = c.eng.cond(c.norm(int_canon(c.norm(cd), frozenset(ints))))
         parts.append(f if pol else dl.f_not(f))
     return dl.f_and(*parts)
 
